@@ -1423,6 +1423,11 @@ func (s *State) checkASAInterfaces() error {
 				// If some ACL or crypto map is bound to this unmanaged
 				// interface, these commands must not accidently be deleted.
 				s.markNeeded(aIntf2cmd[name])
+				// These commands must not take part in comparison.
+				// Otherwise a needed command found at first position
+				// lets diffCmds assume that all commands
+				// have already been equalized.
+				s.removeAnchors(aIntf2cmd[name])
 
 				if !shut {
 					errlog.Warning(
@@ -1600,6 +1605,22 @@ func (s *State) alignVRFs() {
 			vrf = "<global>"
 		}
 		errlog.Info("Leaving VRF %s untouched", vrf)
+	}
+}
+
+// Remove anchor commands "access-group" and "crypto map interface"
+// of unmanaged interface from device configuration.
+func (s *State) removeAnchors(l []*cmd) {
+	for _, prefix := range []string{"access-group", "crypto map interface"} {
+		m := s.a.lookup[prefix]
+		al := slices.DeleteFunc(slices.Clone(m[""]), func(c *cmd) bool {
+			return slices.Contains(l, c)
+		})
+		if len(al) != 0 {
+			m[""] = al
+		} else {
+			delete(m, "")
+		}
 	}
 }
 
